@@ -105,15 +105,15 @@ def jobs(pid, tier):
     # a real change of order, firing at every node creation): the C09 harness restricted to them
     DYN = {'C01': ['ite', 'apply_and'], 'C02': ['var', 'cube', 'apply_and'],
            'C03': ['quantify', 'forall_method', 'apply_forall', 'quantify_kw'],
-           'C04': ['cofactor', 'compose', 'rename'], 'C05': ['add_expr'],
+           'C04': ['cofactor', 'cofactor_low', 'compose', 'rename'], 'C05': ['add_expr'],
            'C06': ['cube', 'var', 'ite']}
     if pid in DYN:
         J.append(Job('dynreorder', dict(N=3, L=2, fires=1, permute=True, ops=DYN[pid]),
-                     need_outcomes=['fired:' + DYN[pid][0]]))
+                     need_outcomes=['fired:' + dict(C04='cofactor_low').get(pid, DYN[pid][0])]))
     if pid == 'C09':
         J.append(Job('dynreorder', dict(N=3, L=2, fires=1 if q else 2), need_outcomes=['fired:ite', 'quiet:ite', 'fired:quantify']))
         # the reorder contract with a real change of order (every permutation), decorated operations
-        deco = ['ite', 'apply_and', 'quantify', 'forall_method', 'apply_forall', 'quantify_kw', 'cofactor',
+        deco = ['ite', 'apply_and', 'quantify', 'forall_method', 'apply_forall', 'quantify_kw', 'cofactor', 'cofactor_low',
                 'compose', 'rename', 'cube', 'var', 'add_expr']
         J.append(Job('dynreorder', dict(N=3, L=2, fires=1, permute=True, ops=deco if q else None),
                      need_outcomes=['fired:ite', 'fired:apply_forall', 'fired:rename']))
